@@ -322,6 +322,81 @@ func LayeredCases(k int, seed int64) []EnumCase {
 	return out
 }
 
+// DeepCases draws k four-layer DAGs: one root, 3-4 nodes fed by it, 1-2 nodes
+// each fed by two of those, 1-2 nodes each fed by one node of the second layer
+// and one of the third (so that two parallel chains need each other's values
+// at different depths), and a sink that consumes every other node (two cases
+// in three) or only the nodes nobody else consumes. Roots are mostly
+// synchronous, the middle mostly Async, the last layer either way.
+func DeepCases(k int, seed int64) []EnumCase {
+	r := rand.New(rand.NewSource(seed))
+	var out []EnumCase
+	for i := 0; i < k; i++ {
+		n1 := 3 + r.Intn(2)
+		n2 := 1 + r.Intn(2)
+		n3 := 1 + r.Intn(2)
+		n := 1 + n1 + n2 + n3 + 1
+		cons := make([][]int, n)
+		add := func(from, to int) {
+			for _, x := range cons[from] {
+				if x == to {
+					return
+				}
+			}
+			cons[from] = append(cons[from], to)
+		}
+		l1, l2, l3, sink := 1, 1+n1, 1+n1+n2, n-1
+		for j := l1; j < l2; j++ {
+			add(0, j)
+		}
+		for j := l2; j < l3; j++ {
+			a := l1 + r.Intn(n1)
+			b := l1 + r.Intn(n1)
+			for b == a {
+				b = l1 + r.Intn(n1)
+			}
+			add(a, j)
+			add(b, j)
+		}
+		for j := l3; j < sink; j++ {
+			add(l1+r.Intn(n1), j)
+			add(l2+r.Intn(n2), j)
+			if j > l3 && r.Intn(2) == 0 {
+				add(j-1, j)
+			}
+		}
+		all := r.Intn(3) != 0
+		for j := 0; j < sink; j++ {
+			if all && j > 0 || len(cons[j]) == 0 {
+				add(j, sink)
+			}
+		}
+		if all && r.Intn(2) == 0 {
+			add(0, sink)
+		}
+		for j := range cons {
+			sortInts(cons[j])
+		}
+		mask := 0
+		for j := 0; j < n; j++ {
+			p := 50
+			switch {
+			case j == 0:
+				p = 25
+			case j < l3:
+				p = 85
+			case j == sink:
+				p = 30
+			}
+			if r.Intn(100) < p {
+				mask |= 1 << j
+			}
+		}
+		out = append(out, EnumCase{N: n, Shape: -5000 - i, Mask: mask, Desc: r.Intn(2) == 0, Cons: cons})
+	}
+	return out
+}
+
 // WideCases draws k wide DAGs: one root (Async or not), 9-14 middle nodes that
 // all need the root (a few also need a neighbour), and a sink that needs every
 // middle node: more goroutines in one injector than any other family has, most
